@@ -22,9 +22,12 @@ def join_tokens(toks, triv=()):
         ins.setdefault(t["g"], []).append(WS if t["k"] == "ws" else (CMT if t["g"] % 2 else CMT2))
     out = ["".join(ins.get(0, []))]
     for i, tok in enumerate(toks):
+        tight = tok.startswith("~")            # Rewrite.tla: written tight against the previous token in the original
+        if tight:
+            tok = tok[1:]
         if i > 0:
             prev = toks[i - 1]
-            sep = "" if (tok in GLUE_BEFORE or prev.endswith("(")) else " "
+            sep = "" if (tight or tok in GLUE_BEFORE or prev.endswith("(")) else " "
             out.append(sep)
         out.append(tok)
         if (i + 1) in ins:
@@ -208,6 +211,34 @@ class C35(Engine):
                           actual={"original": e["o"], "rewritten": e["c"], "shape": e["shape"]}))
         ctx.validate(self.trace[0], self.trace[1], events, on_reject=on_reject, tag=tag)
 
+    # ------------------------------------------------------------------ token programs (Rewrite!Snippets)
+    SNIP_FILES = {"main": "r.scss", "lib": "_lib.scss", "mid": "_mid.scss"}
+    snippet_runs = {"quick": ("MC_Snippets", "MC_Snippets_C35_q.cfg", {"workers": 4}),
+                    "thorough": ("MC_Snippets", "MC_Snippets_C35_t.cfg", {"workers": 4, "timeout": 1200})}
+
+    def snippet_files(self, v, triv):
+        return {fn: join_tokens(v[f], [t for t in triv if t["f"] == f]) for f, fn in self.SNIP_FILES.items() if v[f]}
+
+    def flow_snippets(self, ctx, vecs, tag):
+        cases = []
+        for i, v in enumerate(vecs):
+            cases.append(dict(api="transform", files=self.snippet_files(v, []), entry="r.scss", id=f"{tag}#{i}#o"))
+            cases.append(dict(api="transform", files=self.snippet_files(v, v["triv"]), entry="r.scss", id=f"{tag}#{i}#c"))
+        res = ctx.execute(cases, timeout_ms=3000)
+        events = []
+        for i, v in enumerate(vecs):
+            ro, rc = res[f"{tag}#{i}#o"], res[f"{tag}#{i}#c"]
+            events.append(dict(kind="snippet", snip=v["snip"], triv=v["triv"], rws=["InsertWs" if t["k"] == "ws" else "InsertCmt" for t in v["triv"]],
+                               o=outcome(ro), c=outcome(rc), case=i, devs=ctx.open_devs()))
+            ctx.note_case([v["snip"], v["triv"]], nontrivial=ro.get("status") == "ok",
+                          sample=dict(snippet=v["snip"], rewritten=self.snippet_files(v, v["triv"]), output=rc.get("out")) if i % max(1, len(vecs) // 2) == 3 else None)
+
+        def on_reject(e):
+            v = vecs[e["case"]]
+            ctx.violation(f"{tag}#{e['case']}", dict(input=v, rendered={"original": self.snippet_files(v, []), "rewritten": self.snippet_files(v, v["triv"])},
+                          flow="S", expected="byte-equal outputs", actual={"original": e["o"], "rewritten": e["c"]}))
+        ctx.validate(self.trace[0], self.trace[1], events, on_reject=on_reject, tag=tag)
+
     # ------------------------------------------------------------------ Flow B
     def corpus(self, ctx, n):
         files = sorted(glob.glob(os.path.join(runner.REPO, "rsass", "tests", "spec", "**", "*.rs"), recursive=True))
@@ -273,11 +304,26 @@ class C35(Engine):
             if not vecs:
                 raise tlc.ToolError(f"{module}/{cfg} produced no vectors (vacuous model run)")
             self.flow_a(ctx, vecs, cfg.replace(".cfg", ""))
+        module, cfg, kw = self.snippet_runs[ctx.tier]
+        r = ctx.mc(module, cfg, **kw)
+        vecs = list(ctx.vectors(r))
+        if not vecs:
+            raise tlc.ToolError(f"{module}/{cfg} produced no vectors (vacuous model run)")
+        self.flow_snippets(ctx, vecs, "snip")
         self.flow_b(ctx, self.corpus_n.get(ctx.tier, 0))
 
     def replay(self, ctx, rep):
         r = rep["rendered"]
         model = rep.get("flow") == "A"
+        if rep.get("flow") == "S":
+            v = rep["input"]
+            res = ctx.execute([dict(api="transform", files=r["original"], entry="r.scss", id="o"), dict(api="transform", files=r["rewritten"], entry="r.scss", id="c")], timeout_ms=3000)
+            o, c = outcome(res["o"]), outcome(res["c"])
+            print("replay original:", jdump(o)); print("replay rewritten:", jdump(c))
+            e = dict(kind="snippet", snip=v["snip"], triv=v["triv"], rws=["InsertWs" if t["k"] == "ws" else "InsertCmt" for t in v["triv"]], o=o, c=c, case=0, devs=ctx.open_devs())
+            bad = []
+            ctx.validate(self.trace[0], self.trace[1], [e], on_reject=lambda x: bad.append(x), tag="replay")
+            return not bad
         if model:
             cases = [dict(api="transform", files=r["original"], entry="r.scss", id="o"), dict(api="transform", files=r["rewritten"], entry="r.scss", id="c")]
         else:
